@@ -39,6 +39,5 @@ package deployment
 // up (it would never be finalized again and the canary Deployment would keep its finalizer for ever).
 //@ func (*realCanaryController).Delete
 //@ props C06 C05
-//@ requires r != nil && release != nil
 //@ ensures success_means_every_removal_succeeded: result == nil && #updFin > 0 ==> #updFin.ret0 == nil || isNotFound(#updFin.ret0)
 //@ loop 1 invariant #updFin == 0 || #updFin.ret0 == nil || isNotFound(#updFin.ret0)
